@@ -13,6 +13,18 @@ CHECKS = {
          "One-step obligations from an arbitrary session state: a datagram of any length/content is delivered, or moves any state, only after exactly this datagram opened under this direction's key with its 16-byte header as associated data and a fresh counter, which is recorded afterwards; Write/WriteMsg chunking carries every byte once, in order, for every length 0..3*Max+1; the replay filter's inductive step is discharged here too. Concurrent writers and the confidentiality clause for handshake fields are outside this check (see DESIGN.md).",
          "Kravatte-SANSE replaced by a recording AEAD whose Open is nondeterministic (structural reading: which key/AD/bytes gate delivery; the primitive itself is C12). Receive-step harnesses use replay=none because the stub is not realisable natively; write harnesses replay natively.",
          "SSA symbolic execution + SMT (z3), one-step from arbitrary state, AEAD stub"),
+ "C04": ("DESIGN.md §5 C04",
+         "VerifyLeaf(...) == nil if and only if a branch-free declarative chain predicate holds, with every certificate field symbolic (type bytes over all 256 values, 32-bit times, fingerprints, key/signer ids, names, raw length) for a leaf, an optional presented intermediate and a trust store of up to 2 (quick) / 3 (thorough) certificates in total; VerifyParent's type/fingerprint/signature table; MatchesName / VerifyLeafFormat. Issue->verify and the single-bit-mutation corollary are not covered by a separate harness (they follow from the iff and from C18's round-trip).",
+         "Ed25519 idealised: a signature verifies iff its signer id equals the key id (stub of keys.VerifySignature, replay=none); fingerprints range over 2 symbolic bytes and the store is keyed by its entries' own fingerprints.",
+         "SSA symbolic execution + SMT (z3), equivalence with a declarative predicate"),
+ "C05": ("DESIGN.md §5 C05",
+         "AuthorizeKey grants access iff user lookup, open and parse all succeeded and the (fully symbolic) key equals one of the parsed keys - every failure combination refuses; the real parser (bufio.Scanner, TrimSpace, ParseDHPublicKey, base64) on files assembled from 8 line kinds x up to 3 lines grants only well-formed files that list the key; grant fallback: only when enabled, only for exactly (user,key), consumed once, over all histories of up to 3 AddAuthGrant operations. checkAuthorization's glue (tube accept, user-auth message) is not covered.",
+         "File system, user lookup and (in the first harness) the parser are nondeterministic stubs; the parser harness uses concrete line texts chosen by the solver.",
+         "SSA symbolic execution + SMT (z3), iff-obligations over failure combinations and grant histories"),
+ "C07": ("DESIGN.md §5 C07",
+         "checkCmd from an arbitrary list of up to 2 (quick) / 3 (thorough) grants with symbolic type (all 256 values), start, expiry, command text and principal, symbolic request and clock: succeeds iff a grant of the matching type is effective, unexpired and (commands) textually identical; exactly that grant is consumed and the rest kept in order; startCodex for a grant session goes ahead iff checkCmd accepted; one pass of the session's tube loop dispatches only execution for grant sessions (two recorded known findings: port-forward and authgrant tubes are not gated).",
+         "Clock and user lookup are the repo's own thunks set by the harness; tube/muxer methods and exec-message parsing are stubs; go statements are recorded, not run.",
+         "SSA symbolic execution + SMT (z3), iff-obligation over arbitrary grant lists"),
  "C10": ("DESIGN.md §5 C10",
          "Every datagram of length 0..65535 with arbitrary bytes (including a live session's public id) through the server's and client's session-message handler from an arbitrary session state: no panic, returns, and no state moves unless its AEAD open succeeded. Handshake-message readers and the hidden-mode loop are not yet covered by this check (listed in DESIGN.md).",
          "AEAD stubbed by a nondeterministic Open; panics replay natively against the real build.",
